@@ -43,6 +43,10 @@ CHECKS = {
    technique="fault enumeration over (R,W,RQ) x subsets of unreachable backup owners with an outcome oracle computed from reachable copies and a white-box copy count; member-count starvation with per-command refusal check and state digest",
    text="Every (ReplicaCount, WriteQuorum, ReadQuorum) with 1<=W,RQ<=R<=3 (quick: R<=2) on R+1 members x every subset of the focus partition's backup owners made unreachable (RESP listener and connections closed while the member stays in the member list): Put and Get through the owner and a reachable non-owner (embedded and raw RESP) must be acknowledged / answered iff 1 + reachable backups >= the quorum, otherwise fail with exactly the write-/read-quorum error; acknowledged Puts must have stored >= W copies (counted white-box). Member-count quorum 2 and 3 on 3 members: after graceful departures every one of 32 commands on a fresh connection and NewDMap must be refused with the cluster-quorum error and the member's complete stored state (digest over all fragments) must be unchanged.",
    note="Unreachability is produced by closing the RESP listener; for a non-existent key the error class of Get is not judged; INTERNAL.NODE.UPDATEROUTING is exempt by design."),
+ "C06": dict(category="exploration", design="DESIGN.md §3 C06",
+   technique="argmax(timestamp) oracle over white-box placed copies on owner / real previous owner / backups (exhaustive layouts), read-repair after-state check, merge oracle over all delivery orders and re-deliveries through the real MOVEFRAGMENT command",
+   text="Get: in a really fragmented partition (join with the balancer held back) every assignment of {missing, ts1, ts2, ts3} to the holders {owner, previous owner, backup owners} is placed white-box (ReplicaCount 1-3, read-repair off/on) and a Get through a rotating path must return a copy with the maximal timestamp; with read-repair the owner's own copy and every stale backup copy must equal the winner after that single Get. Merge: seeded sets of 2-4 tables over 5 keys with timestamps 1..6 (ties included) and optional pre-existing local entries are delivered through INTERNAL.NODE.MOVEFRAGMENT to primary and backup fragments in every permutation and with every single re-delivery; after each delivery the receiver must hold, per key, the newest entry delivered so far.",
+   note="Ties accept any copy with the maximal timestamp; missing backup copies need not be created by read-repair; quick runs a third of the layouts and a quarter of the delivery orders (selected by the seed), thorough all of them."),
 }
 
 NOT_BUILT_REASON = "check not built yet (work in progress in this session); not claimed until its monitor is silent on the unchanged tree"
